@@ -11,17 +11,17 @@ state satisfying `E`, or runs out of recursion budget and then `F` holds (`F := 
 namespace Mdsort.Proofs.Conf
 open Mdsort Mdsort.Model
 
-def wp {α : Type} (p : PM α) (Q : α → PState → Prop) (E : PState → Prop) (F : Prop) (s : PState) : Prop :=
+def wp {α : Type} (p : PM α) (Q : α → ParseSt → Prop) (E : ParseSt → Prop) (F : Prop) (s : ParseSt) : Prop :=
   match p s with
   | .ok a s' => Q a s'
   | .err _ s' => E s'
   | .fuel _ => F
 
-variable {α β : Type} {Q : α → PState → Prop} {E : PState → Prop} {F : Prop} {s : PState}
+variable {α β : Type} {Q : α → ParseSt → Prop} {E : ParseSt → Prop} {F : Prop} {s : ParseSt}
 
 theorem wp_pure (a : α) : wp (pure a : PM α) Q E F s = Q a s := rfl
 
-theorem wp_bind (m : PM α) (f : α → PM β) (R : β → PState → Prop) :
+theorem wp_bind (m : PM α) (f : α → PM β) (R : β → ParseSt → Prop) :
     wp (m >>= f) R E F s = wp m (fun a s' => wp (f a) R E F s') E F s := by
   show wp (PM.bind m f) R E F s = _
   unfold wp PM.bind
@@ -30,16 +30,16 @@ theorem wp_bind (m : PM α) (f : α → PM β) (R : β → PState → Prop) :
 theorem wp_failTok : wp (failTok : PM α) Q E F s = E s := rfl
 theorem wp_failAt (l : Nat) : wp (failAt l : PM α) Q E F s = E s := rfl
 theorem wp_outOfFuel : wp (outOfFuel : PM α) Q E F s = F := rfl
-theorem wp_curLine (cx : PCtx) {Q : Nat → PState → Prop} : wp (curLine cx) Q E F s = Q (lineOf cx.nl s.rest) s := rfl
-theorem wp_getMacros {Q : List Macro → PState → Prop} : wp getMacros Q E F s = Q s.macros s := rfl
-theorem wp_setMacros (ms : List Macro) {Q : Unit → PState → Prop} :
+theorem wp_curLine (cx : PCtx) {Q : Nat → ParseSt → Prop} : wp (curLine cx) Q E F s = Q (lineOf cx.nl s.rest) s := rfl
+theorem wp_getMacros {Q : List Macro → ParseSt → Prop} : wp getMacros Q E F s = Q s.macros s := rfl
+theorem wp_setMacros (ms : List Macro) {Q : Unit → ParseSt → Prop} :
     wp (setMacros ms) Q E F s = Q () { s with macros := ms } := rfl
 
 theorem wp_ite (c : Prop) [Decidable c] (a b : PM α) :
     wp (if c then a else b) Q E F s = if c then wp a Q E F s else wp b Q E F s := by
   split <;> rfl
 
-theorem wp_mono {p : PM α} {Q Q' : α → PState → Prop} {E E' : PState → Prop}
+theorem wp_mono {p : PM α} {Q Q' : α → ParseSt → Prop} {E E' : ParseSt → Prop}
     (h : wp p Q E F s) (hq : ∀ a s', Q a s' → Q' a s') (he : ∀ s', E s' → E' s') : wp p Q' E' F s := by
   unfold wp at *
   cases hp : p s <;> simp only [hp] at h ⊢
@@ -50,23 +50,23 @@ theorem wp_mono {p : PM α} {Q Q' : α → PState → Prop} {E E' : PState → P
 /-! ## The measures -/
 
 /-- Tokens still to be shifted: bounded by the unread bytes, plus the lookahead if it is a real token. -/
-def mu (s : PState) : Nat :=
+def mu (s : ParseSt) : Nat :=
   s.rest.length + (match s.la with | some .eof => 0 | some _ => 1 | none => 0)
 
 /-- Potential bounding the number of lexer calls. -/
-def phi (s : PState) : Nat :=
+def phi (s : ParseSt) : Nat :=
   s.nlex + s.rest.length + (match s.la with | some .eof => 0 | _ => 1)
 
 /-- The invariant carried through the parser: at most `n` tokens can still be shifted, potential at most `B`. -/
-def Inv (n B : Nat) (s : PState) : Prop := mu s ≤ n ∧ phi s ≤ B
+def Inv (n B : Nat) (s : ParseSt) : Prop := mu s ≤ n ∧ phi s ≤ B
 
-theorem Inv.mono {n n' B : Nat} {s : PState} (h : Inv n B s) (hn : n ≤ n') : Inv n' B s :=
+theorem Inv.mono {n n' B : Nat} {s : ParseSt} (h : Inv n B s) (hn : n ≤ n') : Inv n' B s :=
   ⟨Nat.le_trans h.1 hn, h.2⟩
 
 /-- States that only differ in the macro table have the same measures. -/
-theorem mu_macros (s : PState) (ms : List Macro) : mu { s with macros := ms } = mu s := rfl
-theorem phi_macros (s : PState) (ms : List Macro) : phi { s with macros := ms } = phi s := rfl
-theorem Inv_macros {n B : Nat} (s : PState) (ms : List Macro) : Inv n B { s with macros := ms } = Inv n B s := rfl
+theorem mu_macros (s : ParseSt) (ms : List Macro) : mu { s with macros := ms } = mu s := rfl
+theorem phi_macros (s : ParseSt) (ms : List Macro) : phi { s with macros := ms } = phi s := rfl
+theorem Inv_macros {n B : Nat} (s : ParseSt) (ms : List Macro) : Inv n B { s with macros := ms } = Inv n B s := rfl
 
 theorem ofToken_eof (t : Token) : Tk.ofToken t = .eof ↔ t = .eof := by
   cases t with
@@ -83,7 +83,7 @@ theorem ofToken_eof (t : Token) : Tk.ofToken t = .eof ↔ t = .eof := by
 
 /-- `peek`: afterwards the lookahead is the returned token and the invariant still holds (also when
 the lexer reported a diagnostic). -/
-theorem wp_peek (cx : PCtx) (pf sf : Bool) {Q : Tk → PState → Prop} {n B : Nat}
+theorem wp_peek (cx : PCtx) (pf sf : Bool) {Q : Tk → ParseSt → Prop} {n B : Nat}
     (hs : Inv n B s) (hE : ∀ s', phi s' ≤ B → E s')
     (hQ : ∀ t s', Inv n B s' → s'.la = some t → s'.macros = s.macros → Q t s') :
     wp (peek cx pf sf) Q E F s := by
@@ -121,7 +121,7 @@ theorem wp_peek (cx : PCtx) (pf sf : Bool) {Q : Tk → PState → Prop} {n B : N
     · rw [if_neg herr]; exact hQ _ _ hinv rfl rfl
 
 /-- `shift` of a real token: one token fewer to go. -/
-theorem wp_shift {Q : Unit → PState → Prop} {n B : Nat} {t : Tk}
+theorem wp_shift {Q : Unit → ParseSt → Prop} {n B : Nat} {t : Tk}
     (hs : Inv n B s) (hla : s.la = some t) (ht : t ≠ .eof)
     (hQ : ∀ s', Inv (n - 1) B s' → 0 < n → s'.la = none → s'.macros = s.macros → Q () s') :
     wp shift Q E F s := by
@@ -142,7 +142,7 @@ theorem wp_shift {Q : Unit → PState → Prop} {n B : Nat} {t : Tk}
   · show s.rest.length + 0 ≤ n - 1; omega
   · show s.nlex + s.rest.length + 1 ≤ B; omega
 
-theorem wp_expandOne (cx : PCtx) (action : Bool) (str : Bytes) {Q : Bytes → PState → Prop} {n B : Nat}
+theorem wp_expandOne (cx : PCtx) (action : Bool) (str : Bytes) {Q : Bytes → ParseSt → Prop} {n B : Nat}
     (hs : Inv n B s) (hE : ∀ s', phi s' ≤ B → E s')
     (hQ : ∀ v ms, Inv n B { s with macros := ms } → Q v { s with macros := ms }) :
     wp (expandOne cx action str) Q E F s := by
@@ -151,7 +151,7 @@ theorem wp_expandOne (cx : PCtx) (action : Bool) (str : Bytes) {Q : Bytes → PS
   | none => exact hE _ hs.2
   | some r => exact hQ r.1 r.2 hs
 
-theorem wp_expandAll (cx : PCtx) (action : Bool) (strs : List Bytes) {Q : List Bytes → PState → Prop} {n B : Nat}
+theorem wp_expandAll (cx : PCtx) (action : Bool) (strs : List Bytes) {Q : List Bytes → ParseSt → Prop} {n B : Nat}
     (hs : Inv n B s) (hE : ∀ s', phi s' ≤ B → E s')
     (hQ : ∀ v ms, Inv n B { s with macros := ms } → Q v { s with macros := ms }) :
     wp (expandAll cx action strs) Q E F s := by
